@@ -2,6 +2,8 @@ package main
 
 import (
 	"go/token"
+	"go/types"
+	"strings"
 
 	"golang.org/x/tools/go/ssa"
 )
@@ -157,6 +159,130 @@ func init() {
 		Rules: []func(*Ctx){func(c *Ctx) { ruleC10a(c, "C10.a") }, func(c *Ctx) { ruleC10b(c, "C10.b") }, func(c *Ctx) { ruleC10c(c, "C10.c") }, func(c *Ctx) { ruleC11b(c, "C10.d") }, func(c *Ctx) { ruleC12b(c, "C10.e") }, func(c *Ctx) { ruleC12c(c, "C10.f") }, func(c *Ctx) { ruleC12h(c, "C10.g") }, func(c *Ctx) {
 			c.describe("C10.h", "= C01.b: on a follower every entry passes the table's own partition test before it is stored")
 			ruleC01b(c, "C10.h")
-		}, func(c *Ctx) { ruleC12a(c, "C10.i") }},
+		}, func(c *Ctx) { ruleC12a(c, "C10.i") }, func(c *Ctx) { ruleCopyComplete(c, "C10.j", "z") }, func(c *Ctx) { ruleC10k(c, "C10.k") }},
 	})
+}
+
+// ruleCopyComplete: a hand-written copy of a struct carries every field over.
+func ruleCopyComplete(c *Ctx, rule string, pkgs ...string) {
+	c.describe(rule, "reg (copy completeness): wherever a struct value is built by copying fields from another value of the same type (a field stored from the same-named field of a source value of that type), every field of the type is carried over — a forgotten field is silently zero in the copy (processFollowers' deep copy of the stream/partition/table specs must keep each table's whereString: it keys the per-entry WHERE cache, and with one shared empty key a point rejected by one table's WHERE is withheld from the others)")
+	n := 0
+	for _, fn := range c.P.ModFns {
+		pk := pkgOf(fn)
+		in := false
+		for _, p := range pkgs {
+			if pk == p {
+				in = true
+			}
+		}
+		if !in {
+			continue
+		}
+		for _, ins := range instrs(fn) {
+			al, ok := ins.(*ssa.Alloc)
+			if !ok {
+				continue
+			}
+			pt, ok := al.Type().Underlying().(*types.Pointer)
+			if !ok {
+				continue
+			}
+			st, ok := pt.Elem().Underlying().(*types.Struct)
+			if !ok || st.NumFields() < 2 {
+				continue
+			}
+			stored := map[int]bool{}
+			fromSame := 0
+			for _, ref := range *al.Referrers() {
+				fa, ok := ref.(*ssa.FieldAddr)
+				if !ok {
+					continue
+				}
+				for _, r2 := range *fa.Referrers() {
+					s2, ok := r2.(*ssa.Store)
+					if !ok || s2.Addr != ssa.Value(fa) {
+						continue
+					}
+					stored[fa.Field] = true
+					// value loaded from the same field of another value of this type?
+					if u, ok := strip(s2.Val).(*ssa.UnOp); ok && u.Op == token.MUL {
+						if fa2, ok := u.X.(*ssa.FieldAddr); ok && fa2.Field == fa.Field && fa2.X != ssa.Value(al) {
+							if pt2, ok := fa2.X.Type().Underlying().(*types.Pointer); ok && types.Identical(pt2.Elem(), pt.Elem()) {
+								fromSame++
+							}
+						}
+					}
+					if f2, ok := strip(s2.Val).(*ssa.Field); ok && f2.Field == fa.Field && types.Identical(f2.X.Type(), pt.Elem()) {
+						fromSame++
+					}
+				}
+			}
+			if fromSame < 1 {
+				continue
+			}
+			n++
+			c.touch(fn)
+			var missing []string
+			for i := 0; i < st.NumFields(); i++ {
+				if !stored[i] {
+					missing = append(missing, st.Field(i).Name())
+				}
+			}
+			top := topOf(fn)
+			c.check(rule, stableName(top)+": copy #"+itoa(perTopCount(c, rule, top))+" of "+typeStr(pt.Elem())+" carries every field", al.Pos(), len(missing) == 0, "all "+itoa(st.NumFields())+" fields are set", "a field-by-field copy of "+typeStr(pt.Elem())+" leaves out "+strings.Join(missing, ", ")+": the copy silently has the zero value there")
+		}
+	}
+	c.floor(rule, "field-by-field struct copies", n, 1)
+}
+
+// ruleC10k: which dimensions are hashed is decided by the table, not by the point.
+func ruleC10k(c *Ctx, rule string) {
+	c.describe(rule, "dom: in partitionFor the whole dimension map is hashed only when the table has no partition keys (len(partitionKeys) == 0) — a point that merely lacks the key dimensions hashes to the empty input, so that all rows agreeing on the partition keys (here: all missing them) live in one partition, which is what whole-query pushdown relies on")
+	pf := c.need(rule, "(*z.DB).partitionFor")
+	if pf == nil {
+		return
+	}
+	var dims *ssa.Parameter
+	for _, p := range pf.Params {
+		if typeStr(p.Type()) == "github.com/getlantern/bytemap.ByteMap" {
+			dims = p
+		}
+	}
+	n := 0
+	for _, call := range calls(pf) {
+		if calleeName(call) != "invoke (hash.Hash32).Write" {
+			continue
+		}
+		a := call.Common().Args
+		if len(a) == 0 || dims == nil || root(a[0]) != ssa.Value(dims) && strip(a[0]) != ssa.Value(dims) {
+			if _, isCT := strip(a[0]).(*ssa.ChangeType); !isCT {
+				continue
+			}
+			if root(a[0]) != ssa.Value(dims) {
+				continue
+			}
+		}
+		n++
+		ok := false
+		for _, g := range guardsOf(call.Block()) {
+			b, isB := g.v.(*ssa.BinOp)
+			if !isB {
+				continue
+			}
+			isLen := func(v ssa.Value) bool {
+				cl, ok := v.(*ssa.Call)
+				return ok && isCall(cl, "builtin len") && typeStr(cl.Call.Args[0].Type()) == "[]string"
+			}
+			zero := func(v ssa.Value) bool { k, ok := constInt(v); return ok && k == 0 }
+			if (isLen(b.X) && zero(b.Y)) || (isLen(b.Y) && zero(b.X)) {
+				// len(keys) > 0 false  /  len(keys) == 0 true / len(keys) != 0 false
+				switch {
+				case b.Op == token.GTR && isLen(b.X) && !g.pos, b.Op == token.EQL && g.pos, b.Op == token.NEQ && !g.pos, b.Op == token.LEQ && isLen(b.X) && g.pos:
+					ok = true
+				}
+			}
+		}
+		c.check(rule, "partitionFor hashes all dims only for tables without partition keys", call.Pos(), ok, "h.Write(dims) is guarded by len(partitionKeys) == 0", "the all-dimensions fallback is not conditioned on the table having no partition keys (e.g. taken whenever nothing was hashed): points lacking the key dimensions are spread over the partitions, and a pushed-down GROUP BY <partition key> returns the missing-key group once per partition")
+	}
+	c.floor(rule, "h.Write(dims) in partitionFor", n, 1)
 }
